@@ -327,3 +327,50 @@ func c06FedDoneLast(c *Ctx) {
 		doneIsLast(c, "group-done-last", feds)
 	}
 }
+
+// connectionHeadersAfterDecode: wsConnection.subscribe attaches the connection's header map (shared by every operation of the
+// connection) to the operation's RawParams only after the client's payload has been decoded into those params — a payload
+// member "headers" would otherwise be merged INTO the shared map and show up in every later operation of the connection.
+func connectionHeadersAfterDecode(c *Ctx) {
+	c.R.Rule("connection-headers-after-decode", "wsConnection.subscribe: no JSON decode into the operation's RawParams is reachable after the connection's header map was stored into RawParams.Headers", 1)
+	sub := c.fn(pkgTransport, "*"+wsConn+".subscribe")
+	if sub == nil {
+		return
+	}
+	n := 0
+	for _, b := range sub.Blocks {
+		for _, in := range b.Instrs {
+			var at ssa.Instruction
+			switch x := in.(type) {
+			case *ssa.Store:
+				fa, ok := x.Addr.(*ssa.FieldAddr)
+				if !ok || !isRawParamsField(fa, "Headers") {
+					continue
+				}
+				if src, ok := loadAddr(an.Strip(x.Val)).(*ssa.FieldAddr); !ok || fieldNameOf(src) != "headers" {
+					continue
+				}
+				at = in
+			}
+			if at == nil {
+				continue
+			}
+			n++
+			var later ssa.Instruction
+			for _, call := range an.CallsIn(sub, func(ci ssa.CallInstruction, _ an.CalleeInfo) bool { return c.decodeTarget(ci) != nil }) {
+				if call.Parent() == sub && an.CanReach(at, call) {
+					later = call
+				}
+			}
+			pos := c.ipos(at)
+			if later != nil {
+				pos = c.ipos(later)
+			}
+			c.R.Check(later == nil, "subscribe/headers-attached-after-decode", pos, "the shared map is attached after decoding",
+				"the client's payload is decoded into params that already point at the connection's header map: a \"headers\" member of one operation's payload is written into the map every later operation of the connection sees")
+		}
+	}
+	if n == 0 {
+		c.R.Note("subscribe/headers-attached-after-decode", c.pos(sub.Pos()), "subscribe does not attach the connection's headers by a field store; not decided")
+	}
+}
